@@ -196,6 +196,29 @@ PROPS['C02'] = {
     'design_ref': 'DESIGN.md section 10.8',
     'bounded': ['wire_c02'],
 }
+PROPS['C05'] = {
+    'units': ['fmt_ts', 'fmt_kotlin', 'fmt_swift', 'fmt_scala', 'fmt_go', 'fmt_python'],
+    'title': 'type expressions translate structurally and honour type mappings (IR -> target text kernel)',
+    'technique': 'Verus postconditions on the type-expression translators of all six back ends - Language::format_type / format_simple_type / '
+                 'format_generic_type / format_generic_parameters (trait defaults or the back end\'s override) and each format_special_type, extracted '
+                 'verbatim and re-homed per back end - against a recursive translation RELATION written from the property (spec/typexpr.rs); each '
+                 'format! site is verified through a contract generated from its literal in the current source',
+    'level_text': 'For every type expression of the IR (any depth, any generic parameters in scope), every type_mappings table and every prefix, in each '
+                  'of the six back ends: what format_type returns is the compositional translation - the target\'s sequence of the translated element '
+                  'for Vec / slice / array, the target\'s map of translated key and value, the (mapped, else prefixed, never for a generic parameter) '
+                  'name followed by ALL translated generic arguments in order, a mapped type replaced by its mapping at every position (user, generic '
+                  'and built-in types alike), each primitive spelled as SOME target type of the same JSON category that holds every value - or a '
+                  'refusal only where the property admits one (generic parameter as TypeScript / Python map key, OffsetDateTime). The recursion '
+                  'terminates and TypeScript\'s panic! for 64-bit integers is unreachable for parser output.',
+    'level_note': 'Kernel from the IR to the type-expression text. That references / smart pointers / path prefixes disappear is the syn-based parser '
+                  '(TryFrom<&syn::Type>): NOT proved, bounded stand-in type-search only. Where the translated expression is placed in the output is text '
+                  'emission. Assumed: std::fmt `{}` semantics behind the generated format! contracts, the key spelling of built-in types '
+                  '(uninterpreted), vstd HashMap model with the String key-model axiom, std combinator desugarings (T14b). Domain: no u64/i64/usize/isize.',
+    'design_ref': 'DESIGN.md section 10.9',
+    'bounded': ['typesearch'],
+}
+for _u in PROPS['C05']['units']:
+    PROPS['C07']['units'].append(_u)
 PROPS['C03']['bounded'] = ['merge', 'tos']
 PROPS['C06']['bounded'] = ['merge', 'cli_determinism']
 PROPS['C11']['bounded'] = ['topo', 'deps']
@@ -206,9 +229,9 @@ PROPS['C18']['bounded'] = ['kint']
 PROPS['C20']['bounded'] = ['cfg_all', 'cli_config']
 PROPS['C07']['bounded'] = ['rename', 'topo', 'cli_robust']
 
-NOT_APPLICABLE = {k: NA_TEXT for k in ['C04', 'C05', 'C08', 'C10', 'C12', 'C14', 'C15', 'C19']}
+NOT_APPLICABLE = {k: NA_TEXT for k in ['C04', 'C08', 'C10', 'C12', 'C14', 'C15', 'C19']}
 
-ALL_UNITS = ['topo', 'rename', 'cfg', 'cfg_all', 'merge', 'write']
+ALL_UNITS = sorted({u for p_ in PROPS.values() for u in p_.get('units', [])})
 ALL_KANI = ['kint']
 
 
